@@ -3,7 +3,7 @@
    cannot depend on whether the implementation holds a Decimal or a Fraction;
    that tie is the correspondence (both representations are generated). *)
 From Coq Require Import ZArith QArith Qabs List Bool.
-From QV Require Import Model.Num Model.Rounding Model.Quantity
+From QV Require Import Gen.QuantityImpl Proofs.GenQuantityEq Model.Num Model.Rounding Model.Quantity
      Proofs.QuantityProofs Proofs.C13Proofs Proofs.C01Proofs Proofs.C03C04Proofs.
 
 (* each ordering operator = the operator on the reference values *)
@@ -60,6 +60,16 @@ Theorem C04_units_equal_by_scale : forall u v,
   unit_eq u v = Ok (qeqb (scale u) (scale v)).
 Proof. exact unit_eq_scale. Qed.
 Print Assumptions C04_units_equal_by_scale.
+
+(* THE MODEL IS THE CODE: equality and ordering as re-translated from
+   src/quantity/__init__.py on every run equal the model functions above *)
+Theorem C04_model_is_translated_code : forall ce p q op u v,
+  qty_eq_impl ce p q = qty_eq ce p q /\ qty_cmp_impl ce p q op = qty_cmp ce op p q /\
+  unit_eq_impl u v = unit_eq u v.
+Proof.
+  intros. split; [apply qty_eq_impl_eq|]. split; [apply qty_cmp_impl_eq | apply unit_eq_impl_eq].
+Qed.
+Print Assumptions C04_model_is_translated_code.
 
 Definition ex_km := mkUnit 1 7 true (Some (1000 # 1)) None.
 Definition ex_m  := mkUnit 2 7 true (Some 1) None.
